@@ -12,3 +12,17 @@ import (
 func VerifRunUDPAssociateDatagramLoop(udpConn *vnet.UDPConn, ctrlConn vnet.Conn, resolver apicommon.DNSResolver) error {
 	return runUDPAssociateDatagramLoop(udpConn, ctrlConn, resolver)
 }
+
+// VerifParseUDPDatagram exposes the SOCKS5 UDP datagram parser.
+func VerifParseUDPDatagram(pkt []byte) error {
+	_, err := parseSocks5UDPDatagram(pkt)
+	return err
+}
+
+// VerifClientNegotiate exposes the client side of the authentication negotiation.
+func VerifClientNegotiate(conn interface {
+	Read([]byte) (int, error)
+	Write([]byte) (int, error)
+}, cred *Credential) error {
+	return clientNegotiateAuthentication(conn, cred)
+}
